@@ -44,6 +44,13 @@ def install (s : St) (room : Room) : St :=
 def addLogDay (l : List (RoomId × Int)) (r : RoomId) (day : Int) : List (RoomId × Int) :=
   if l.contains (r, day) then l else l ++ [(r, day)]
 
+/-- since the daily log is a function of the stored content (/repo 20e7aa6: a day that holds nothing any more has no log
+    row): the (room, day) pairs of the rows, of the row deletion records and of the reference deletion records -/
+def contentDays (w : World) : List (RoomId × Int) :=
+  let all := (w.rows.filterMap fun x => x.room.map fun r => (r, dayOf x.mdate))
+    ++ (w.nodeDels.map fun d => (d.room, dayOf d.date)) ++ (w.edgeDels.map fun d => (d.room, dayOf d.date))
+  all.foldl (fun acc x => if acc.contains x then acc else acc ++ [x]) []
+
 def insertSorted (x : String) : List String → List String
   | [] => [x]
   | h :: t => if x ≤ h then x :: h :: t else h :: insertSorted x t
@@ -185,7 +192,7 @@ def stepOp (s : St) (kind : String) (toks : List String) : St × String :=
       else
         let w := (atT t).w
         let logs := match room with | some r => addLogDay w.logDays r (dayOf t) | none => w.logDays
-        ({ s with usedRows := id :: s.usedRows, w := { w with rows := w.rows ++ [⟨id, room, 1, t⟩], logDays := logs } }, "ok")
+        ({ s with usedRows := id :: s.usedRows, w := { w with rows := w.rows ++ [⟨id, room, 1, t⟩], logDays := [] } }, "ok")
     | _, _, _ => (s, "bad-op")
   | "ref" | "delref" =>
     match nat? toks "src", nat? toks "dst", int? toks "t" with
@@ -200,7 +207,7 @@ def stepOp (s : St) (kind : String) (toks : List String) : St × String :=
           let dels := match ra.room with | some r => w.edgeDels ++ [⟨r, 1, t⟩] | none => w.edgeDels
           if kind = "ref" then
             if has then ({ s with w := w }, "ok")
-            else ({ s with w := { w with refs := w.refs ++ [⟨a, b, t⟩], rows := redate w.rows a t, logDays := logs } }, "ok")
+            else ({ s with w := { w with refs := w.refs ++ [⟨a, b, t⟩], rows := redate w.rows a t, logDays := [] } }, "ok")
           else
             if has then
               ({ s with w := { w with refs := w.refs.filter (fun e => !(e.src = a ∧ e.dst = b)), rows := redate w.rows a t,
@@ -293,7 +300,9 @@ def stepLine (m : Mode) (line : String) : Mode × String :=
     match m with
     | .c08 s =>
       if ["now", "room", "group", "member", "row", "ref", "delref", "delrow", "open", "auth", "q"].contains kind then
-        let (s', o) := Drv08.stepOp s kind rest; (.c08 s', o)
+        let (s', o) := Drv08.stepOp s kind rest
+        -- the daily log is a function of the stored content: recomputed after every operation
+        (.c08 { s' with w := { s'.w with logDays := Drv08.contentDays s'.w } }, o)
       else (m, "bad-op")
     | .c19 s =>
       let (s', o) := Discret.Handshake.Drv.stepOp s kind rest
